@@ -55,9 +55,9 @@ def generate(rng, tier, idx):
     dtype = "f64"
     if cls == "intdtype" and kind != "Q":
         # integer-valued vectors passed as int32 / int64 arrays, zeros included where the EPSILON shift applies
-        dtype = "i32" if rng.random() < 0.5 else "i64"
+        dtype = str(rng.choice(["i32", "i64", "u8", "u16"]))
         zok = bool(dec)
-        x, y, z = (int_vec(rng, kind, n, zok).astype(float) for _ in range(3))
+        x, y, z = (int_vec(rng, kind, n, zok, narrow=dtype in ("u8", "u16")).astype(float) for _ in range(3))
         if rng.random() < 0.3:
             y = x.copy()
     if cls == "identical":
@@ -87,7 +87,7 @@ def check(case):
     fn = DISTANCES[name]
     X, Y, Z = case["x"], case["y"], case["z"]
 
-    npdt = {"i32": np.int32, "i64": np.int64}.get(case.get("dtype", "f64"), float)
+    npdt = {"i32": np.int32, "i64": np.int64, "u8": np.uint8, "u16": np.uint16}.get(case.get("dtype", "f64"), float)
 
     def d(a, b):
         try:
